@@ -175,8 +175,12 @@ func (c c06Case) prev(i int) []byte {
 func c06GenFrame(t *rapid.T, proc string, eth bool) ([]byte, string) {
 	own := map[string]string{"tcpflags": "tcp", "tcpsyn": "tcp", "icmp": "icmp", "arp": "arp"}[proc]
 	kind := own
-	if rapid.IntRange(0, 2).Draw(t, "other-kind") == 0 {
+	switch rapid.IntRange(0, 5).Draw(t, "other-kind") {
+	case 0, 1:
 		kind = gen.AllKinds[kit.Uniform(t, "kind", len(gen.AllKinds))]
+	case 2:
+		// consistently built datagrams without a complete transport header (short, non-first fragment), plain or nested
+		kind = gen.OddKinds[kit.Uniform(t, "oddkind", len(gen.OddKinds))]
 	}
 	fr := gen.ValidFrame(t, kind, gen.FrameOpts{Ethernet: eth, DstIP: [4]byte{10, 0, 0, 1}, DstMAC: [6]byte{2, 0, 0, 0, 0, 1}})
 	desc := kind
@@ -206,7 +210,7 @@ func c06Gen(t *rapid.T) c06Case {
 func TestC06Frames(t *testing.T) {
 	kit.Run(t, kit.Spec[c06Case]{
 		Prop: "C06",
-		Rule: "sequences of 1..12 frames fed to ONE processor instance (tcp flags / tcp syn / icmp(udp) / arp; Ethernet and raw-IP mode): each frame is a well-formed frame of a drawn kind (own protocol 2/3 of the time; else tcp/udp/icmp/arp/ipv6/vlan/IP-in-IP 1..3 levels/other protocol, with IP+TCP options) with 0..3 structural mutations (truncate anywhere, IHL, total length, protocol, data offset, fragment bits, version, trailing garbage, bit flips, ARP sizes/types, ethertype, cut inside L4, random bytes), delivered in exact-capacity slices. Oracle (independent decoder): no panic, <=1 record per frame, a record only if THIS frame has the complete header chain and every record field equals this frame's bytes. non-trivial: a frame decoding past the link layer followed later by one lacking the transport header; distinct by case",
+		Rule: "sequences of 1..12 frames fed to ONE processor instance (tcp flags / tcp syn / icmp(udp) / arp; Ethernet and raw-IP mode): each frame is a well-formed frame of a drawn kind (own protocol half of the time; else tcp/udp/icmp/arp/ipv6/vlan/IP-in-IP 1..3 levels/other protocol, with IP+TCP options; or a consistently built datagram that ends inside/before its transport header or is a non-first fragment, plain or nested in IP-in-IP) with 0..3 structural mutations applied at a drawn level of the IP-in-IP chain (truncate anywhere, IHL, total length, protocol, data offset, fragment bits, version, trailing garbage, bit flips, ARP sizes/types, ethertype, cut inside L4, random bytes), delivered in exact-capacity slices. Oracle (independent decoder): no panic, <=1 record per frame, a record only if THIS frame has the complete header chain and every record field equals this frame's bytes. non-trivial: a frame decoding past the link layer followed later by one lacking the transport header; distinct by case",
 		Gen:   c06Gen,
 		Check: c06Check,
 	})
